@@ -25,6 +25,7 @@ type replWorkload struct {
 	Burst           int  // >0: at BurstAt the leader->follower stream is held back, Burst records are produced, then the stream is released at once
 	BurstAt         int64
 	Sparse          bool  // cut positions on a coarse grid only (long streams)
+	CutStride       int   // with Sparse: distance between cut positions (default 1531)
 	RestartLeaderAt int64 // >0: the leader is killed and started again on its directory at this instant (its ring is then empty)
 }
 
@@ -54,6 +55,23 @@ func c09Workloads(quick bool) []replWorkload {
 	}
 	// a slow follower: 600 records become readable at once (more than the follower's 256 receive buffers)
 	ws = append(ws, replWorkload{Name: "burst-of-600-records", Steps: base, JoinAt: 2500 * ms, EndAt: 40 * sec, Burst: 600, BurstAt: 12 * sec, Sparse: true})
+	// values larger than the sender's 4096-byte batch buffer, right behind small records about the same key: a
+	// sender that resumes after a cut has all of them pending in one drain
+	big := protocol.NewLockCommandDataSetString(strings.Repeat("L", 5000)).Data
+	big2 := protocol.NewLockCommandDataSetString(strings.Repeat("M", 4033)).Data
+	large := append(append([]TStep{}, base[:3]...),
+		at(4000*ms, z(hapi.Cmd{Type: 1, Req: 10, Key: 3, Id: 3, Expried: 100, Data: set})),
+		at(4100*ms, z(hapi.Cmd{Type: 1, Req: 11, Key: 6, Id: 1, Expried: 300})),
+		at(4200*ms, z(hapi.Cmd{Type: 1, Req: 17, Key: 8, Id: 8, Expried: 300})),
+		at(4200*ms, hapi.Cmd{Type: 2, Req: 12, Key: 6, Id: 1}),
+		at(4200*ms, z(hapi.Cmd{Type: 1, Req: 13, Key: 6, Id: 2, Expried: 300, Data: big})),
+		at(4200*ms, z(hapi.Cmd{Type: 1, Req: 18, Key: 9, Id: 9, Expried: 300})),
+		at(4300*ms, hapi.Cmd{Type: 2, Req: 14, Key: 3, Id: 3}),
+		at(4300*ms, z(hapi.Cmd{Type: 1, Req: 15, Key: 3, Id: 4, Expried: 300, Data: big2})),
+		at(4400*ms, z(hapi.Cmd{Type: 1, Req: 16, Key: 7, Id: 7, Expried: 300})))
+	ws = append(ws, replWorkload{Name: "large-values", Steps: large, JoinAt: 2500 * ms, EndAt: 30 * sec, Sparse: true, CutStride: 31, LeaderMod: func(c *hapi.Config) { c.RingSz = 1 << 16; c.RingMaxSz = 1 << 20 }},
+		// the same with the default ring: the batch overruns it, the sender gives up and the follower starts over
+		replWorkload{Name: "large-values-small-ring", Steps: large, JoinAt: 2500 * ms, EndAt: 30 * sec, Sparse: true, CutStride: 97})
 	if !quick {
 		var many []TStep
 		many = append(many, base...)
@@ -154,7 +172,8 @@ func runRepl(w *replWorkload, cut1, cut2 int) replOutcome {
 			_ = c.Send(make64(protocol.COMMAND_PING))
 			restarted = true
 		}
-		for _, st := range steps {
+		for si := 0; si < len(steps); si++ {
+			st := steps[si]
 			if !restarted && st.At >= w.RestartLeaderAt {
 				restartLeader()
 				if out.Err != "" {
@@ -169,7 +188,14 @@ func runRepl(w *replWorkload, cut1, cut2 int) replOutcome {
 				}
 			}
 			vrt.AdvanceTo(st.At)
-			_ = c.Send(wire.BinFrame(st.Cmd))
+			// steps scripted for the same instant are pipelined in one write: the connection handler works
+			// through them in one go, so their records reach the replication ring as a batch
+			frames := wire.BinFrame(st.Cmd)
+			for si+1 < len(steps) && steps[si+1].At == st.At {
+				si++
+				frames = append(frames, wire.BinFrame(steps[si].Cmd)...)
+			}
+			_ = c.Send(frames)
 		}
 		if follower == nil {
 			vrt.AdvanceTo(w.JoinAt)
@@ -254,7 +280,11 @@ func c09Cases(quick bool) []EnumCase {
 		out = append(out, mkCase(fmt.Sprintf("%s/baseline", w.Name), c09Arg{wi, -1, 0, -1}))
 		chunk := 24
 		if w.Sparse {
-			for f := 7; f < n; f += 1531 {
+			stride := 1531
+			if w.CutStride > 0 {
+				stride = w.CutStride
+			}
+			for f := 7; f < n; f += stride {
 				out = append(out, mkCase(fmt.Sprintf("%s/cut/%d", w.Name, f), c09Arg{wi, f, f + 1, -1}))
 			}
 			continue
